@@ -681,3 +681,27 @@ Proof.
   destruct (run str wr_str wd fuel tpl None 0 (t_root_chunk tpl) 0 _ (SinkBuf [])) as [s1 o1|e|]; try discriminate.
   cbn. intros H. inversion H; subst. split; [reflexivity|]. exists o1. reflexivity.
 Qed.
+
+(* render_eq_render_to: the String-returning variant of an entry point is `res_of_run` of the
+   writer variant on an empty Vec<u8>; against any other writer the writer variant delivers the
+   same text, or fails with the same error class or ErrIo *)
+Definition string_variant (F : runner) : res str := res_of_run (F str wr_str []).
+
+Theorem string_variant_agrees (F : runner) : simulable F ->
+  (forall (W : Type) (wr : W -> str -> option W) (acc : W -> str),
+     (forall w t w', wr w t = Some w' -> acc w' = acc w ++ t) ->
+     forall w0 s w, F W wr w0 = RDone s (SinkTop w) ->
+     exists out, string_variant F = ROk out /\ acc w = acc w0 ++ out) /\
+  (forall (W : Type) (wr : W -> str -> option W) w0 e,
+     F W wr w0 = RFail e -> string_variant F = RErr e \/ e = ErrIo) /\
+  (forall h, F str wr_str h = shift h (F str wr_str [])).
+Proof.
+  intros HF. split; [|split].
+  - intros W wr acc Hacc w0 s w Hg.
+    destruct (accepting_writer_agrees F HF W wr acc Hacc w0 s w Hg) as (out & Hinf & Ha).
+    exists out. unfold string_variant. rewrite Hinf. split; [reflexivity|exact Ha].
+  - intros W wr w0 e Hg. pose proof (gen_below F HF W str wr (fun w t => w ++ t) w0 []) as H.
+    cbv beta in H. change (fun (w : str) t => Some (w ++ t)) with wr_str in H. rewrite Hg in H.
+    destruct H as [H | H]; [left|right; exact H]. unfold string_variant. rewrite H. reflexivity.
+  - apply buffer_history_irrelevant. exact HF.
+Qed.
